@@ -16,6 +16,8 @@ specification's gate applications (`Spec/Sem.lean`), rendered.
 * `semSkel_unroll` — unrolling that skeleton = `Sem.unroll`;
 * `traceTokens_spec` — the tokens of one serialised trace;
 * `flat_norm`, `unroll_norm` — `Sem.flat` and `Sem.unroll` do not see `Sem.norm`.
+* `ArgAgree`, `argAgree_spec`, `RecRel.args` — the structured form of `argToken_spec` (no strings): the library's reading of an
+  argument (`resolveQubit`, `resolveReg` of every element, the number itself) is the specification's value.
 -/
 namespace Jaqal.RunModel
 open Jaqal Jaqal.Builder Jaqal.Resolve Jaqal.FillIn Jaqal.Sem
@@ -670,5 +672,90 @@ mutual
           unrollList_normList p r]
       · simp only [hp, if_false, Sem.unrollList, Sem.unroll, unrollList_normList p body, unrollList_normList par r]
 end
+
+/-! ### The structured form: the library's reading of an argument IS the specification's value -/
+
+/-- every element of a register argument the specification evaluates resolves (`Register.resolve_qubit`) to the qubit at its
+place in the denotation -/
+theorem reg_elems_spec {v : Val} {qs : List FQ} (ht : RegT v = true) (h : evalReg [] [] v = .ok qs) :
+    ∀ i : Nat, i < qs.length → ∃ q, qs[i]? = some q ∧ resolveReg [] v (i : Int) = .ok q := by
+  have hv := UsedQubits.validChain_of_eval v qs ht h
+  obtain ⟨K, hK, hK0⟩ := validChain_sizeI hv
+  obtain ⟨l, hl, hlen, hin, _⟩ := chain_spec hv hK
+  rw [h] at hl; cases hl
+  intro i hi
+  obtain ⟨q, hq, hr⟩ := hin (i : Int) (by omega) (by omega)
+  exact ⟨q, by simpa using hq, hr⟩
+
+/-- the library's reading of the argument `v` against an evaluated argument: a number is that number; a qubit reference
+resolves (`NamedQubit.resolve_qubit`, through its alias chain) to that fundamental qubit; a register argument has as many
+elements as its denotation, and its `i`-th element resolves (`Register.resolve_qubit`) to the `i`-th qubit of the denotation -/
+def ArgAgree (v : Val) : SArg → Prop
+  | .num x => v = Val.ofNum x
+  | .qubit q => resolveQubit [] v = .ok q
+  | .reg qs => regIndices v = .ok (qs.map (·.2)) ∧
+      ∀ i : Nat, i < qs.length → ∃ q, qs[i]? = some q ∧ resolveReg [] v (i : Int) = .ok q
+
+theorem argAgree_spec {v : Val} {sa : SArg} (ht : argT v = true) (h : evalArg [] [] v = .ok sa) : ArgAgree v sa := by
+  cases v with
+  | int k =>
+    simp only [evalArg, evalNum, bind, Except.bind, pure, Except.pure, Except.ok.injEq] at h
+    subst h; rfl
+  | flt d =>
+    simp only [evalArg, evalNum, bind, Except.bind, pure, Except.pure, Except.ok.injEq] at h
+    subst h; rfl
+  | qubit nm s i =>
+    simp only [argT, Bool.and_eq_true] at ht
+    simp only [evalArg] at h
+    obtain ⟨q, hq, h⟩ := bind_ok h
+    simp only [pure, Except.pure, Except.ok.injEq] at h
+    subst h
+    exact (UsedQubits.qubit_agree ctxRel_nil (goodSrc_of_RegT ht.1) (goodIdx_of_intC ht.2) hq).1
+  | regF n sz =>
+    have hT : RegT (.regF n sz) = true := by simpa [argT] using ht
+    simp only [evalArg] at h
+    obtain ⟨qs, hqs, h⟩ := bind_ok h
+    simp only [pure, Except.pure, Except.ok.injEq] at h
+    subst h
+    exact ⟨regIndices_spec hT hqs, reg_elems_spec hT hqs⟩
+  | regA n src =>
+    have hT : RegT (.regA n src) = true := by simpa [argT] using ht
+    simp only [evalArg] at h
+    obtain ⟨qs, hqs, h⟩ := bind_ok h
+    simp only [pure, Except.pure, Except.ok.injEq] at h
+    subst h
+    exact ⟨regIndices_spec hT hqs, reg_elems_spec hT hqs⟩
+  | regS n src a b c =>
+    have hT : RegT (.regS n src a b c) = true := by simpa [argT] using ht
+    simp only [evalArg] at h
+    obtain ⟨qs, hqs, h⟩ := bind_ok h
+    simp only [pure, Except.pure, Except.ok.injEq] at h
+    subst h
+    exact ⟨regIndices_spec hT hqs, reg_elems_spec hT hqs⟩
+  | const _ _ => simp [argT, RegT] at ht
+  | param _ _ => simp [argT, RegT] at ht
+  | none => simp [argT, RegT] at ht
+  | str _ => simp [argT, RegT] at ht
+
+theorem evalArgs_agree : ∀ (args : List (String × Val)) (vs : List SArg), (∀ a ∈ args, argT a.2 = true) →
+    ExpandMacros.evalArgs [] [] args = .ok vs →
+    ∀ (j : Nat) (a : String × Val) (sa : SArg), args[j]? = some a → vs[j]? = some sa → ArgAgree a.2 sa
+  | [], vs, _, _, j, a, sa, ha, _ => by simp at ha
+  | a0 :: r, vs, ht, h, j, a, sa, ha, hsa => by
+    obtain ⟨x, xs, hx, hxs, rfl⟩ := evalArgs_cons_ok h
+    cases j with
+    | zero =>
+      simp only [List.getElem?_cons_zero, Option.some.injEq] at ha hsa
+      subst ha hsa
+      exact argAgree_spec (ht _ (List.mem_cons_self ..)) hx
+    | succ j =>
+      simp only [List.getElem?_cons_succ] at ha hsa
+      exact evalArgs_agree r xs (fun b hb => ht b (List.mem_cons_of_mem _ hb)) hxs j a sa ha hsa
+
+/-- a row of the table against its gate application, argument by argument -/
+theorem RecRel.args {g : GateRec} {app : GateApp} (hr : RecRel g app) :
+    g.2.2.length = app.2.length ∧
+    ∀ (j : Nat) (a : String × Val) (sa : SArg), g.2.2[j]? = some a → app.2[j]? = some sa → ArgAgree a.2 sa :=
+  ⟨(ExpandMacros.evalArgs_length hr.2.1).symm, evalArgs_agree _ _ hr.2.2 hr.2.1⟩
 
 end Jaqal.RunModel
